@@ -25,6 +25,9 @@ pub enum Rel {
     Stdin,
     /// same command line through the Python package's entry point (pykmertools.run_cli)
     PyEntry,
+    /// the same command under another environment (pool-size variable, working directory and relative paths,
+    /// locale, bare environment): same results
+    Env(u8),
 }
 
 #[derive(Clone, Debug, Serialize, Deserialize)]
@@ -56,6 +59,7 @@ fn other(c: &Case) -> Cmd {
         Rel::Counts => b.counts = !b.counts,
         Rel::Acgt => b.acgt = !b.acgt,
         Rel::Stdin => b.stdin = !b.stdin,
+        Rel::Env(p) => b.env_profile = *p,
     }
     b
 }
@@ -172,7 +176,7 @@ pub fn check_case(c0: &Case) -> Verdict {
     let c = &c;
     let a = &c.cmd;
     let b = other(c);
-    v.class(format!("{:?}-{}", a.sub, match &c.rel { Rel::Library => "library", Rel::Preset(_) => "preset", Rel::Header => "header", Rel::Threads(_) => "threads", Rel::Counts => "counts", Rel::Acgt => "acgt", Rel::Stdin => "stdin", Rel::PyEntry => "py-entry" }));
+    v.class(format!("{:?}-{}", a.sub, match &c.rel { Rel::Library => "library", Rel::Preset(_) => "preset", Rel::Header => "header", Rel::Threads(_) => "threads", Rel::Counts => "counts", Rel::Acgt => "acgt", Rel::Stdin => "stdin", Rel::PyEntry => "py-entry", Rel::Env(_) => "environment" }));
     let nondefault = [a.counts, a.header, a.preset != Preset::Spc, a.threads != 0, a.alt, a.acgt, a.m2s, a.w != 0, a.stdin].iter().filter(|&&x| x).count();
     v.nontrivial = c.recs.len() >= 2 && nondefault >= 2;
     v.class_if(a.spell != 0, "options-spelled-long-or-attached");
@@ -257,9 +261,9 @@ pub fn check_case(c0: &Case) -> Verdict {
                 }
             }
         }
-        Rel::Threads(_) | Rel::Stdin | Rel::PyEntry => {
+        Rel::Threads(_) | Rel::Stdin | Rel::PyEntry | Rel::Env(_) => {
             if let Err(e) = same_results(a, &ra, &rb) {
-                v.fail(match c.rel { Rel::Stdin => "stdin-changes-result", Rel::PyEntry => "python-entry-differs-from-executable", _ => "threads-change-result" }, format!("{}: {}", what, e));
+                v.fail(match c.rel { Rel::Stdin => "stdin-changes-result", Rel::PyEntry => "python-entry-differs-from-executable", Rel::Env(_) => "environment-changes-result", _ => "threads-change-result" }, format!("{} (environment profiles {} and {}): {}", what, a.env_profile, b.env_profile, e));
             }
         }
         Rel::Preset(p) => {
@@ -369,6 +373,13 @@ pub fn cmd_strategy() -> BoxedStrategy<(Cmd, Rel)> {
     (base, prop_oneof![2 => Just(0u64), 3 => any::<u64>()], prop::bool::weighted(0.25), any::<u16>())
         .prop_map(|((mut cmd, rel), spell, omit, reset)| {
             cmd.spell = spell;
+            // the environment of the executable runs: derived from the generated spelling word (a third of the cases
+            // run in a non-default environment, a seventh compare two environments)
+            let e = (spell >> 40) as u8;
+            if spell != 0 && e % 3 == 0 {
+                cmd.env_profile = (spell >> 48) as u8 & 31;
+            }
+            let rel = if spell != 0 && e % 7 == 0 { Rel::Env(((spell >> 56) as u8 & 31) | 4) } else { rel };
             if omit {
                 cmd.omit_defaults = true;
                 let d = Cmd::base(cmd.sub);
